@@ -9,15 +9,15 @@ import (
 	"golang.org/x/tools/go/ssa"
 )
 
-// c05AddsTarget: f appends to Route.Targets of an existing route (Route.addTarget today).
-func c05AddsTarget(f *ssa.Function) bool {
-	hit := false
-	eachInstr(f, func(i ssa.Instruction) {
-		if isStore, removal := c05TargetsStore(i); isStore && !removal {
-			hit = true
+// c05AddsTarget: f appends to Route.Targets of an existing route (Route.addTarget today): it holds a store that
+// appends to the field, or the call of a setter that is handed such an append (c05TargetsWrites).
+func c05AddsTarget(ix *c05WriteIndex, f *ssa.Function) bool {
+	for _, w := range ix.byFn[f] {
+		if !w.removal {
+			return true
 		}
-	})
-	return hit
+	}
+	return false
 }
 
 func runC05I1(c *Ctx) {
@@ -44,7 +44,8 @@ func runC05I1(c *Ctx) {
 	// helpers and closures), an existing target is recognised by comparing URL.String() of both URLs
 	var adders []*ssa.Function
 	seen := map[*ssa.Function]bool{}
-	for _, f := range c.fnsWhere("route", c05AddsTarget) {
+	ix := c05IndexWrites(c)
+	for _, f := range c.fnsWhere("route", func(f *ssa.Function) bool { return c05AddsTarget(ix, f) }) {
 		if top := c05TopFn(f); !seen[top] {
 			seen[top] = true
 			adders = append(adders, top)
